@@ -3,12 +3,15 @@ import json
 
 ID = "C09"
 HARNESS_TEST = "TestC09"
-COQ_MODEL = ["C09/Check.v"]
+GEN = "c09"
+COQ_MODEL = ["C09/Check.v", "C09/Sites.v", "Gen/C09Facts.v"]
 COQ_PROOF_DEPS = ["C09/Proofs.v"]
-COQ_OBLIG = ["C09/Property.v"]
-CASES_HEADER = "Require Import Nib.C09.Model Nib.C09.Spec Nib.C09.Check."
+COQ_OBLIG = ["C09/Property.v", "Gen/C09Oblig.v"]
+CASES_HEADER = "Require Import Nib.C09.Model Nib.C09.Spec Nib.C09.Sites Nib.C09.Check Nib.Gen.C09Facts."
 CASE_TYPE = "case"
-MISMATCH_FN = "mismatch"
+# the model the implementation is compared with follows the regenerated inventory of pointer sites:
+# Shared (the code as it is) unless every access to Keeper.Bank.StateDB is guarded against check-state contexts
+MISMATCH_FN = "mismatch_in (mode_of ptr_sites)"
 VIOLATES_FN = "violates"
 RULE = ("case = (deliver script: init code of a contract-creation EVM tx made of yield / native send / FunToken.bankMsgSend steps, "
         "optionally reverting; 0-3 requests: eth_call / estimateGas / traceTx (view, value transfer, bankMsgSend of unibi or of another "
